@@ -38,6 +38,8 @@ MESSAGE_IDIOMS = [
     "[ci/skip] bump {old_version} -> {new_version}", "[skip ci] release {new_version}", "[bot/bumpver] {new_version}", "chore(release): {new_version} [origin/main]",
     "[origin/main: ahead 1] {new_version}", "* main 89abcde [fork/main] {new_version}", "release/{new_version}", "Merge branch 'release/{new_version}' into main",
     "fix: bump (closes #12)", "{new_version}", "literal {{new_version}} and {{old_version}}, real {new_version}", "{{\"version\": \"{new_version}\"}}", "v{new_version} / {new_version_pep440}", "bump\n\n[ci/skip]\nSigned-off-by: A <a@example.invalid>",
+    # multi-line bodies whose continuation lines are ALL indented, or carry tabs (a shell snippet, a nested list): the indentation is message text
+    "release {new_version}\n\n    $ pip install demo=={new_version}\n    $ demo --version", "bump {new_version}\n\n\t* item\n\t\t- nested {old_version}\n\tend",
 ]
 BENIGN = "Zq9"
 OLD, NEW = "1.2.3", "1.2.4"
